@@ -90,6 +90,8 @@ theorem be32dec_be32 (n : Nat) (h : n < 4294967296) :
 structure Good (cfg : FrameCfg) (cd : Codec) : Prop where
   dec_enc : ∀ x, cd.dec (cd.enc x) = some x
   enc_len : ∀ x, (cd.enc x).length ≤ maxEncodedLen x.length
+  /-- the length a snappy block announces is the length of what it encodes -/
+  ann_enc : ∀ x, cd.announced (cd.enc x) = x.length
   hdr_ver : (cfg.leading &&& cfg.versionMask) = cfg.version00
   hdr_type : (cfg.leading &&& cfg.typeMask) = cfg.typeCompress
   fits : cfg.headerSize + maxEncodedLen cfg.dataMaxSize ≤ cfg.frameCapacity
@@ -99,13 +101,13 @@ structure Good (cfg : FrameCfg) (cd : Codec) : Prop where
 
 /-- the configuration generated from the tree satisfies every non-codec assumption -/
 theorem genCfg_good (cd : Codec) (h1 : ∀ x, cd.dec (cd.enc x) = some x)
-    (h2 : ∀ x, (cd.enc x).length ≤ maxEncodedLen x.length) : Good genCfg cd :=
-  { dec_enc := h1, enc_len := h2, hdr_ver := by decide, hdr_type := by decide, fits := by decide, cap32 := by decide,
+    (h2 : ∀ x, (cd.enc x).length ≤ maxEncodedLen x.length) (h3 : ∀ x, cd.announced (cd.enc x) = x.length) : Good genCfg cd :=
+  { dec_enc := h1, enc_len := h2, ann_enc := h3, hdr_ver := by decide, hdr_type := by decide, fits := by decide, cap32 := by decide,
     hs5 := by decide, max_pos := by decide }
 
 /-- the assumptions are satisfiable: the identity codec -/
-example : Good genCfg { enc := id, dec := some } :=
-  genCfg_good _ (fun _ => rfl) (fun x => by simp only [maxEncodedLen, id]; omega)
+example : Good genCfg { enc := id, dec := some, announced := List.length } :=
+  genCfg_good _ (fun _ => rfl) (fun x => by simp only [maxEncodedLen, id]; omega) (fun _ => rfl)
 
 theorem maxEncodedLen_mono {a b : Nat} (h : a ≤ b) : maxEncodedLen a ≤ maxEncodedLen b := by
   simp only [maxEncodedLen]
@@ -165,8 +167,8 @@ theorem read_frame {cfg : FrameCfg} {cd : Codec} (g : Good cfg cd) (c rest : Byt
   simp only [g.hdr_ver, g.hdr_type, bne_self_eq_false, Bool.false_or, beq_self_eq_true, Bool.and_false,
     Bool.false_eq_true, ↓reduceIte, List.length_append]
   rw [if_neg (by omega), if_neg (by omega)]
-  simp only [List.take_left', List.drop_left', g.dec_enc]
-  rw [if_neg (by omega)]
+  simp only [List.take_left', List.drop_left', g.dec_enc, g.ann_enc]
+  rw [if_neg (by omega), if_neg (by omega)]
 
 /-- serving from `recvBuffer` -/
 theorem read_buffered (cfg : FrameCfg) (cd : Codec) (b : UInt8) (bs wire : Bytes) (n : Nat) :
@@ -304,7 +306,7 @@ theorem stream_identity {cfg : FrameCfg} {cd : Codec} (g : Good cfg cd) (writes 
     · exact Or.inr ⟨he, by rw [ho, pending, List.nil_append, hflat]⟩
 
 /-- non-vacuity: a 3-byte write read back with 2-byte buffers through the model, identity codec -/
-example : (readMany genCfg { enc := id, dec := some } { recvBuffer := [], wire := wireOfWrites genCfg { enc := id, dec := some } [[1, 2, 3]] } [2, 2, 2]).2
+example : (readMany genCfg { enc := id, dec := some, announced := List.length } { recvBuffer := [], wire := wireOfWrites genCfg { enc := id, dec := some, announced := List.length } [[1, 2, 3]] } [2, 2, 2]).2
     = ([1, 2, 3], some .eof) := by decide
 
 /-! ## 2. mux -/
